@@ -11,9 +11,11 @@ export PATH="/verif/harness/bin:$PATH"
 (cd "$OUT" && PYTHONPATH="$WT" timeout 900 /venv/bin/python demo.py >/dev/null 2>&1); B=$?
 echo "demo: unchanged exit=$A mutated exit=$B"
 /verif/tools/baseline.py "$WT" | tail -3
+EVBAK=$(mktemp -d /var/tmp/evbak.XXXX); cp /verif/evidence/*.json "$EVBAK"/ 2>/dev/null
 for C in $CHECKS; do
   echo "== check $C against the seeded change"
   (cd /verif && GV_REPO="$WT" ./check "$C" --tier "${TIER:-quick}" 2>&1 | grep -E "VIOLATION|KNOWN|^\[|broken" | cut -c1-400 | head -12)
 done
+cp "$EVBAK"/*.json /verif/evidence/ 2>/dev/null; rm -rf "$EVBAK"
 mkdir -p "/verif/seeded/$SID" && cp "$OUT/patch.diff" "$OUT/demo.py" "$OUT/meta.json" "/verif/seeded/$SID/"
 echo "stored /verif/seeded/$SID (edit meta.json: verified + caught_by)"
